@@ -73,6 +73,29 @@ def degenerate(rng):
             "meas": meas, "total_mode": rng.choice(["given", "estimated"]), "noise_seed": rng.randrange(10 ** 6), "degenerate": kind}
 
 
+def sharp(rng):
+    """Very precise answers about 1000 private records that avoid some cells, public records IN those cells listed last: their
+    weights are driven to (almost) zero and must still be non-negative, exactly."""
+    cells = [(i, j) for i in range(2) for j in range(3)]
+    dead = rng.sample(cells, 2)
+    live = [c for c in cells if c not in dead]
+    priv = [list(rng.choice(live)) for _ in range(1000)]
+    pub = [list(rng.choice(live)) for _ in range(rng.randint(3, 6))] + [list(dead[0]), list(dead[1])]
+    return {"attrs": ["a", "b"], "sizes": [2, 3], "public": pub, "private": priv,
+            "meas": [{"proj": ["a", "b"], "kind": "identity", "noise": 0.01}, {"proj": ["b"], "kind": "identity", "noise": 0.01}],
+            "total_mode": rng.choice(["given", "estimated"]), "noise_seed": rng.randrange(10 ** 6)}
+
+
+def sharp3(rng):
+    """Three attributes, 60 public records, 1000 private records that never take a = 2, all two-way marginals answered with noise
+    0.01; the LAST public record has a = 2: its weight decays to the order of the round-off of the other weights."""
+    priv = [[rng.randrange(2), rng.randrange(4), rng.randrange(3)] for _ in range(1000)]
+    pub = [[rng.randrange(3), rng.randrange(4), rng.randrange(3)] for _ in range(59)] + [[2, rng.randrange(4), rng.randrange(3)]]
+    return {"attrs": ["a", "b", "c"], "sizes": [3, 4, 3], "public": pub, "private": priv,
+            "meas": [{"proj": list(cl), "kind": "identity", "noise": 0.01} for cl in (("a", "b"), ("b", "c"), ("a", "c"))],
+            "total_mode": "given", "noise_seed": rng.randrange(10 ** 6)}
+
+
 # a fixed instance of finding F19 (2 identical single-cell records, 2*I at noise 0.5 answering 6, a stacked identity answering 5, 5)
 KNOWN_DEGENERATE = {"attrs": ["a", "b"], "sizes": [1, 1], "public": [[0, 0]] * 2, "private": [[0, 0]] * 5,
                     "meas": [{"proj": ["a"], "kind": "twice", "noise": 0.5, "y": [6.0]}, {"proj": ["b"], "kind": "stack", "noise": 1.0, "y": [5.0, 5.0]}],
@@ -222,7 +245,7 @@ def run(ctx, canary=False):
         ctx.violation("design-level: %s violated in PublicMD.tla" % r.violated, {"tlc": r.trace_text()}, {"kind": "design"})
     traces = []
     stats = {"negative_rhs_steps": 0, "accepted_increase": 0, "runs": 0}
-    scs = [scenario(rng) for _ in range(900 if thorough else 110)] + [precise_vs_imprecise(rng) for _ in range(60 if thorough else 8)] + [big_prefix(rng) for _ in range(20 if thorough else 4)] + [degenerate(rng) for _ in range(30 if thorough else 6)] + [KNOWN_DEGENERATE]
+    scs = [scenario(rng) for _ in range(900 if thorough else 110)] + [precise_vs_imprecise(rng) for _ in range(60 if thorough else 8)] + [big_prefix(rng) for _ in range(20 if thorough else 4)] + [degenerate(rng) for _ in range(30 if thorough else 6)] + [KNOWN_DEGENERATE] + [sharp(rng) for _ in range(60 if thorough else 6)] + [sharp3(rng) for _ in range(400 if thorough else 120)]
     import multiprocessing
     with multiprocessing.get_context("fork").Pool(16) as pool:
         outs = pool.map(one_run, scs, chunksize=2)
